@@ -15,3 +15,4 @@ PROPS['C15'] = ('core_family', 'c15')
 PROPS['C13'] = ('core_family', 'c13')
 PROPS['C03'] = ('auth_family', 'c03')
 PROPS['C04'] = ('auth_family', 'c04')
+PROPS['C12'] = ('wire_family', 'c12')
